@@ -127,6 +127,12 @@ func (g *genState) largeContainerCheck(e *entry, p reflect.Value, n int, emit bo
 	if !rt {
 		fail("large-container-roundtrip-fails", "decode(encode(x)) != x ("+o.Err+o.Panic+")", ref)
 	}
+	if n >= 1000 {
+		g.allocCheck(e, ref, "valid", allocValidK, n == 1000)
+	}
+	if n == 64 {
+		g.minimalElementLists(e, ref, 300000)
+	}
 	if emit && len(cold[0]) <= 16000 {
 		c := Case{Kind: "enc", Type: e.name, ty: e.id, Bytes: "(large container)", RT: rt, Mut: fmt.Sprintf("large:%d", n)}
 		c.coq = fmt.Sprintf("PEnc %d (%s) %s %s", e.id, mv.Coq(), vf.Bool(rt), byteList(cold[0]))
@@ -135,7 +141,84 @@ func (g *genState) largeContainerCheck(e *entry, p reflect.Value, n int, emit bo
 	}
 }
 
+// ---- allocation for honestly sized inputs ----------------------------------------------------
+// Two input classes, each with its own linear bound (constants in the evidence):
+//  valid   - a valid large container (the elements are really there): the decoder builds
+//            the objects, bound allocValidK x len + 1 MiB;
+//  minimal - a list position filled with very many minimal elements (0x80), honest size
+//            fields: the decoder rejects at the first element (or builds tiny elements),
+//            bound allocMinimalK x len + 1 MiB.
+// A decoder that allocates by a size field (payload bytes x element size) before it has
+// decoded anything exceeds both for element types of 20-40 bytes.
+const (
+	allocValidK   = 90 // twice the worst honest case of the unchanged code (43.1 x: large lists of minimal blocks)
+	allocMinimalK = 6  // the unchanged code allocates 0.01 x for these inputs (it rejects at the first element)
+	allocConst    = 1 << 20
+)
+
+func (g *genState) allocCheck(e *entry, b []byte, class string, k uint64, stream bool) {
+	var o obs
+	if stream {
+		o, _ = goDecodeStream(e, b)
+	} else {
+		o = goDecode(e, b, true)
+	}
+	ratio := float64(o.Alloc) / float64(len(b))
+	key := "alloc_ratio_max:" + class
+	if cur, ok := g.res.Extra[key].(float64); !ok || ratio > cur {
+		g.res.Extra[key] = ratio
+	}
+	g.res.Count("alloc_checked:" + class)
+	if o.Alloc > k*uint64(len(b))+allocConst {
+		g.res.Count("alloc_hit")
+		in := b
+		if len(in) > 100000 {
+			in = in[:100000]
+		}
+		mode := ""
+		if stream {
+			mode = "stream"
+		}
+		g.hit(hit{What: "allocation-far-beyond-honest-input:" + e.name, Type: e.name, Mode: mode, Bytes: hex.EncodeToString(in),
+			Note: fmt.Sprintf("%s input of %d bytes with honest size fields: the decode allocated %d bytes (%.1f x the input; bound %d x + 1 MiB)", class, len(b), o.Alloc, ratio, k)})
+	}
+	if o.Accepted {
+		g.capOracle(e, o.obj, b, "")
+	}
+}
+
+// every list position of a small valid encoding, filled with m empty strings
+func (g *genState) minimalElementLists(e *entry, seed []byte, m int) {
+	it, err := parseAll(seed)
+	if err != nil {
+		return
+	}
+	var ns []*Item
+	nodes(it, &ns)
+	filler := make([]*Item, m)
+	empty := &Item{B: []byte{}}
+	for i := range filler {
+		filler[i] = empty
+	}
+	done := 0
+	for _, x := range ns {
+		if !x.IsList || done >= 4 {
+			continue
+		}
+		saved := x.L
+		x.L = filler
+		b := enc(it)
+		x.L = saved
+		done++
+		g.allocCheck(e, b, "minimal", allocMinimalK, done%2 == 0)
+	}
+}
+
 func (g *genState) largeContainerCampaign() {
+	g.res.Extra["alloc_bound_valid_K"] = allocValidK
+	g.res.Extra["alloc_bound_minimal_K"] = allocMinimalK
+	g.res.Extra["alloc_bound_const_bytes"] = allocConst
+	g.res.Extra["slice_cap_rule"] = "cap > 4*len+16 of any slice of a decoded object is a hit (primary, deterministic); allocation bounds are secondary"
 	for _, tn := range largeTypes {
 		e := entryByName(tn)
 		if e == nil {
